@@ -1111,6 +1111,8 @@ class Gen:
         if lists_on and C.kind != 'int':
             opts += [(9, 'assignL'), (8, 'store'), (3, 'nested'), (3, 'store2')]
         opts += [(3, 'tuple'), (2, 'untuple')]
+        if C.is_float and (lists_on or ch.bool(0.3)):
+            opts.append((5, 'grid3'))
         if depth > 0:
             opts += [(8, 'if'), (4, 'if1'), (8, 'for'), (14, 'with'), (3, 'while')]
         if fn.is_main and self.helpers:
@@ -1119,7 +1121,7 @@ class Gen:
                 opts.append((14, 'alias-call'))
         opts.append((1, 'assert'))
         if (in_loop or in_with or depth < 2) and depth < 3:
-            opts.append((3, 'return'))
+            opts.append((9 if in_with else 3, 'return'))
         k = ch.weighted(opts)
         if k == 'assign':
             v = fn.fresh('v')
@@ -1293,6 +1295,8 @@ class Gen:
             else:
                 return False
             out.append(f'{ind}{v} = {t}')
+        elif k == 'grid3':
+            self.grid3_scenario(fn, C, ind, out)
         elif k == 'alias-call':
             return self.alias_call_scenario(fn, C, ind, out, in_with, in_loop)
         elif k == 'return':
@@ -1439,6 +1443,58 @@ class Gen:
             return r
         return False
 
+
+    def grid3_scenario(self, fn, C, ind, out):
+        """A list nested three deep, a projection of one of its cells (or rows) held in a name, a multi-index store that puts
+        ANOTHER list into that slot, and reads of both afterwards: the projection must keep naming the old list."""
+        ch = self.ch
+
+        def cell():
+            elems = []
+            for _ in range(2):
+                a, _k = self.operand(fn, C, 1)
+                b, _k = self.operand(fn, C, 0)
+                elems.append(f'({a} {self.pick_op(fn, C, a, b, ["+", "*", "-", "/"])} {b})')
+            return '[' + ', '.join(elems) + ']'
+        ni, nj = ch.int(1, 2), ch.int(2, 2)
+        g = fn.fresh('g')
+        rows = ['[' + ', '.join(cell() for _ in range(nj)) + ']' for _ in range(ni)]
+        out.append(f'{ind}{g} = [{", ".join(rows)}]')
+        i, j = ch.int(0, ni - 1), ch.int(0, nj - 1)
+        held = fn.fresh('xs')
+        depth2 = ch.bool(0.75)
+        if depth2:
+            out.append(f'{ind}{held} = {g}[{i}][{j}]')                  # a cell: list[real]
+            # sometimes an unrelated statement in between
+            if ch.bool(0.3):
+                v0 = fn.fresh('v')
+                out.append(f'{ind}{v0} = {g}[{i}][{1 - j}][0]')
+                fn.env[v0] = Sc(C.kind, sf=False)
+            out.append(f'{ind}{g}[{i}][{j}] = {cell()}')
+            self.bind(fn, held, Li(C.kind, 2, True, sf=False))
+            v = fn.fresh('v')
+            w = fn.fresh('v')
+            out.append(f'{ind}{v} = {held}[{ch.int(0, 1)}]')
+            out.append(f'{ind}{w} = {g}[{i}][{j}][{ch.int(0, 1)}]')
+            fn.env[v] = Sc(C.kind)
+            fn.env[w] = Sc(C.kind)
+            self.features.add('grid3-cell-replaced-projection-held')
+        else:
+            # one level up: the held name is a row (list[list[real]]), replaced through one index
+            out.append(f'{ind}{held} = {g}[{i}]')
+            out.append(f'{ind}{g}[{i}] = [{", ".join(cell() for _ in range(nj))}]')
+            fn.env[held] = LL(C.kind, nj, 2, sf=False)
+            v = fn.fresh('v')
+            w = fn.fresh('v')
+            out.append(f'{ind}{v} = {held}[{j}][{ch.int(0, 1)}]')
+            out.append(f'{ind}{w} = {g}[{i}][{j}][{ch.int(0, 1)}]')
+            fn.env[v] = Sc(C.kind)
+            fn.env[w] = Sc(C.kind)
+            self.features.add('grid3-row-replaced-projection-held')
+        for n in (v, w, held):
+            if n not in fn.must_observe:
+                fn.must_observe.append(n)
+        self.features.add('nested-list-3-deep')
 
     def emit_clamps(self, fn, C, K, ind, out):
         """Before an integer block: range-clamped copies of a few float variables, the only floats the block may round
@@ -1664,8 +1720,28 @@ class Gen:
     def pick_ret_shape(self, fn, is_main):
         ch = self.ch
         if is_main:
-            return ch.weighted([(10, 'big'), (4, 'scalar'), (4, 'list'), (2, 'pair'), (2, 'nested')])
+            return ch.weighted([(10, 'big'), (3, 'scalar'), (3, 'list'), (5, 'pair'), (2, 'nested')])
         return ch.weighted([(8, 'scalar'), (3, 'list'), (1, 'bool')])
+
+    def inexact(self, fn, C: Ctx):
+        """An operation under C whose result depends on the rounding mode for most operands."""
+        ch = self.ch
+        a, _ = self.operand(fn, C, 1)
+        b, _ = self.operand(fn, C, 0)
+        if ch.bool(0.5) or not self.mul_ok(fn, C, a, b):
+            return f'({a} / {b})'
+        c, _ = self.operand(fn, C, 0)
+        return f'({a} * {b} + {c})'
+
+    def tuple_field(self, fn, C: Ctx, kind):
+        """A tuple-return field of `kind`: a variable, or -- when the active context has that kind -- an inexact operation
+        evaluated inside the return statement itself (a `return` inside a `with` must evaluate it before the mode is restored)."""
+        ch = self.ch
+        cands = self.scalars(fn, lambda k: fits(k, kind))
+        if C.kind == kind and C.is_float and (not cands or ch.bool(0.45)):
+            self.features.add('tuple-return-computed-field')
+            return self.inexact(fn, C)
+        return ch.choice(cands) if cands else None
 
     def return_text(self, fn, C: Ctx):
         """Text of a value of the function's return shape, from what is in scope (None if impossible)."""
@@ -1700,20 +1776,29 @@ class Gen:
             fn.ret_elem = fn.env[l].elem
             return l
         if shape == 'pair':
-            cands = self.scalars(fn, lambda k: fits(k, fn.ret_kind))
-            if not cands:
+            a = self.tuple_field(fn, C, fn.ret_kind)
+            b = self.tuple_field(fn, C, fn.ret_kind)
+            if a is None or b is None:
                 return None
-            return f'({ch.choice(cands)}, {ch.choice(cands)})'
+            return f'({a}, {b})'
         # 'big': fixed layout chosen at the first return:  list of slot types
         if getattr(fn, 'big_layout', None) is None:
-            return None
+            # an early return comes first: a layout every later return (the closing one runs under the top-level context,
+            # whose kind is fn.ret_kind) can fill: scalars of the return kind, a bool, list parameters
+            layout = [('S', fn.ret_kind) for _ in range(ch.int(2, 3))]
+            if ch.bool(0.4):
+                layout.append(('B',))
+            for n in sorted(fn.env):
+                if n.startswith('a') and isinstance(fn.env[n], Li) and ch.bool(0.6):
+                    layout.append(('L', fn.env[n].elem))
+            fn.big_layout = layout
         parts = []
         for slot in fn.big_layout:
             if slot[0] == 'S':
-                cands = self.scalars(fn, lambda k: fits(k, slot[1]))
-                if not cands:
+                t = self.tuple_field(fn, C, slot[1])
+                if t is None:
                     return None
-                parts.append(ch.choice(cands))
+                parts.append(t)
             elif slot[0] == 'B':
                 bs = self.vars_of(fn, lambda t: isinstance(t, Bo))
                 parts.append(ch.choice(bs) if bs else 'True')
